@@ -56,6 +56,12 @@ RECURSIVE FSum(_)
 FSum(f) == IF DOMAIN f = {} THEN 0
            ELSE LET x == CHOOSE x \in DOMAIN f : TRUE IN
                 f[x] + FSum([y \in DOMAIN f \ {x} |-> f[y]])
+\* sum of F over a sequence, every element visited once (Expr's SeqSum over a function
+\* expression [i \in .. |-> F(..)] re-evaluates the lazy function on every access: the
+\* cost of a recursive F then grows exponentially with the depth of the tree)
+SumOver(ks, F(_)) == LET RECURSIVE Go(_)
+                         Go(i) == IF i > Len(ks) THEN 0 ELSE F(ks[i]) + Go(i + 1)
+                     IN Go(1)
 SetToSeq(S) == LET RECURSIVE Go(_)
                    Go(T) == IF T = {} THEN << >>
                             ELSE LET e == CHOOSE e \in T : TRUE IN << e >> \o Go(T \ {e})
@@ -439,7 +445,7 @@ Post(I, ev, envs) ==
 RECURSIVE OccOut(_, _)
 OccOut(n, t) == IF IsW(t) THEN 0
                 ELSE (IF t = n THEN 1 ELSE 0)
-                     + SeqSum([i \in 1..Len(Kids(t)) |-> OccOut(n, Kids(t)[i])])
+                     + SumOver(Kids(t), LAMBDA k : OccOut(n, k))
 
 \* ---- the invariants of one instance -------------------------------------
 \* "an evaluator computes the child of each distinct wrapper exactly once": at most once
@@ -546,9 +552,9 @@ RepeatedOpOnce(ins, I) == OpBadRs(ins, I) = {}
 \* each occurrence in the input may reach its function once)
 RECURSIVE NKwCalls(_)
 NKwCalls(e) == (IF e.t = "CallKw" THEN 1 ELSE 0)
-               + SeqSum([i \in 1..Len(Kids(e)) |-> NKwCalls(Kids(e)[i])])
+               + SumOver(Kids(e), NKwCalls)
 CallBound(ins) == Cardinality({p \in InClasses(ins) : p.R.t = "Call"})
-                  + SeqSum([j \in 1..Len(ins) |-> NKwCalls(ins[j])])
+                  + SumOver(ins, NKwCalls)
 
 (***************************************************************************)
 (* A-layer: the caching evaluator (CSECachingMapperMixin + EvaluationMapper*)
